@@ -193,8 +193,14 @@ def _execve_child(path, argv, envp, fds, ids):
         if ids:
             # distinct non-zero real ids so that AT_UID / AT_GID are not both 0 (driver runs as root)
             os.setgroups([])
-            os.setgid(ids[1])
-            os.setuid(ids[0])
+            if len(ids) == 2:
+                os.setgid(ids[1])
+                os.setuid(ids[0])
+            else:
+                # split credentials: real != effective != saved (AT_UID vs AT_EUID, AT_GID vs AT_EGID differ,
+                # AT_SECURE becomes 1, /proc/self/auxv becomes unreadable for the process itself)
+                os.setresgid(ids[1], ids[3], ids[3] + 1)
+                os.setresuid(ids[0], ids[2], ids[2] + 1)
         argv_arr = (ctypes.c_char_p * (len(argv) + 1))(*argv, None)
         envp_arr = (ctypes.c_char_p * (len(envp) + 1))(*envp, None)
         _libc.execve(ctypes.c_char_p(path), argv_arr, envp_arr)
@@ -499,10 +505,20 @@ def judge(path, argv, envp, exit_code, peek_plan, res, ids=None):
     if b"X" not in by:
         facts["auxv_unreadable"] = True
         outcomes.append("aux:proc-auxv-unreadable")
+        if ids and len(ids) == 4 and b"u" in by and b"g" in by:
+            # split credentials make the process non-dumpable, so it cannot read its own auxv: compare the getters
+            # with the REAL ids the driver installed (AT_UID / AT_GID are the real ids, not the effective ones)
+            got_uid, = struct.unpack("<I", by[b"u"][0])
+            got_gid, = struct.unpack("<I", by[b"g"][0])
+            if got_uid != ids[0]:
+                problems.append(("aux-get_uid-differs", f"get_uid()={got_uid} under real uid {ids[0]} / effective uid {ids[2]}: AT_UID is the real uid"))
+            if got_gid != ids[1]:
+                problems.append(("aux-get_gid-differs", f"get_gid()={got_gid} under real gid {ids[1]} / effective gid {ids[3]}: AT_GID is the real gid"))
+            outcomes.append("aux:getters-compared-with-split-credentials")
     else:
         aux = parse_auxv(by[b"X"][0])
         facts["auxv_keys"] = sorted(aux)
-        if (aux.get(11), aux.get(13)) != (tuple(ids) if ids else (os.getuid(), os.getgid())):
+        if (aux.get(11), aux.get(13)) != (tuple(ids[:2]) if ids else (os.getuid(), os.getgid())):
             facts["auxv_uid_mismatch_with_driver"] = True
         got_uid, = struct.unpack("<I", by[b"u"][0])
         got_gid, = struct.unpack("<I", by[b"g"][0])
@@ -608,6 +624,9 @@ def ids_for(code, switch_ids):
     """real uid/gid the probe runs under: the driver's own for every third shape, else distinct values"""
     if not switch_ids or code % 3 == 0:
         return None
+    if code % 3 == 2:
+        # (real uid, real gid, effective uid, effective gid)
+        return (1000 + code, 2000 + 7 * code, 40000 + code, 50000 + 3 * code)
     return (1000 + code, 2000 + 7 * code)
 
 
